@@ -380,3 +380,105 @@ Proof.
   eexists. repeat split; vm_compute; reflexivity.
 Qed.
 Print Assumptions C20_rtlil_char_brace_fill_refuted.
+
+(* --- designs with state: registers, several clock domains, a comb process, asynchronous reset ---
+   (Model/Format.v part 6; this is the runner the differential run executes) *)
+
+(* on the fragment of the earlier theorems (one domain, inputs only) the design runner is run_steps *)
+Theorem C20_design_single_domain f7 sigs pos rst p steps :
+  run_design f7 false (single sigs pos rst p) (map conv_step steps) =
+  run_steps sigs pos p steps (init_env sigs) false 0 [].
+Proof. exact (run_design_single f7 sigs pos rst p steps). Qed.
+Print Assumptions C20_design_single_domain.
+
+(* nothing is emitted (and nothing stops) at a step that is neither an active edge of its domain nor a change of a
+   signal the comb process reads: inactive clock transitions, sets of other signals or to the same value, any change
+   of a synchronous reset, the fall of an asynchronous one *)
+Theorem C20_quiet_steps_emit_nothing bf D t st out : quiet_step D t st = true ->
+  fst (dstep_run false bf D t st out) = Cont out.
+Proof. exact (quiet_step_silent bf D t st out). Qed.
+Print Assumptions C20_quiet_steps_emit_nothing.
+
+(* an active edge of domain d: its statements run on the values BEFORE the edge (a register printed at the edge shows
+   its old value); the registers then step from those same values, the reset level deciding; comb statements follow *)
+Theorem C20_edge_reads_pre_edge_values f7 bf D d b st out :
+  is_edge (d_pos (dom_of D d)) (nth d (s_clk st) false) b = true ->
+  dstep_run f7 bf D (TClk d b) st out =
+  match exec_b bf (ds_sigs D) (s_env st) (d_prog (dom_of D d)) out with
+  | Cont out' =>
+      let env' := update_regs (ds_sigs D) (s_env st) (nth d (s_rst st) false) d (ds_regs D) (s_env st) in
+      (after_change bf D (s_env st) env' out', DS env' (set_nthb d b (s_clk st)) (s_rst st))
+  | s => (s, DS (s_env st) (set_nthb d b (s_clk st)) (s_rst st))
+  end.
+Proof. exact (edge_step_spec f7 bf D d b st out). Qed.
+Print Assumptions C20_edge_reads_pre_edge_values.
+
+Theorem C20_reset_change_never_emits bf D d b st out : ds_comb D = PSkip ->
+  fst (dstep_run false bf D (TRst d b) st out) = Cont out.
+Proof. exact (reset_step_silent bf D d b st out). Qed.
+Print Assumptions C20_reset_change_never_emits.
+
+(* FINDING F7 (owned by C03; the C20 harness runs the model with f7 = true, i.e. faithful to the unrepaired code):
+   in an async-reset domain the rise of rst runs the sync process, so a sync Print fires with no active edge *)
+Theorem C20_async_reset_F7_refuted :
+  exists D st, d_async (dom_of D 0) = true /\ ds_comb D = PSkip /\
+    fst (dstep_run false false D (TRst 0 true) st []) = Cont [] /\
+    fst (dstep_run true false D (TRst 0 true) st []) = Cont [120; 10].
+Proof.
+  exists (Design [Sh 4 false] [Dom true true true (PPrint [CLit [120]])] PSkip []).
+  exists (design_init (Design [Sh 4 false] [Dom true true true (PPrint [CLit [120]])] PSkip [])).
+  vm_compute. repeat split.
+Qed.
+Print Assumptions C20_async_reset_F7_refuted.
+
+(* the finding-semantics switch for C20-brace-fill changes nothing when it is off *)
+Theorem C20_finding_switch_off sigs env p out : exec_b false sigs env p out = exec sigs env p out.
+Proof. exact (exec_b_false sigs env p out). Qed.
+Print Assumptions C20_finding_switch_off.
+
+(* a counter printed in its own domain, read by a comb Print, with a synchronous reset *)
+Example C20_design_example :
+  let D := Design [Sh 1 false; Sh 2 false]
+             [Dom true true false (PPrint [CLit [83]; CField (VSig 1) []])]
+             (PPrint [CLit [67]; CField (VSig 1) []])
+             [Reg 1 0 (Some 0%nat) 1 0 false] in
+  run_design false false D [TSet 0 1; TClk 0 true; TClk 0 false; TClk 0 true; TRst 0 true; TClk 0 false; TClk 0 true] =
+  (Cont [67;48;10; 83;48;10;67;49;10; 83;49;10;67;50;10; 83;50;10;67;48;10], 7).
+Proof. vm_compute. reflexivity. Qed.
+
+(* --- the recogniser is complete: every string of the grammar is accepted, with the record it was rendered from --- *)
+Theorem C20_recogniser_complete sp wd sh :
+  (f_fill sp <> None -> f_align sp <> None /\ f_fill sp <> Some 10) ->
+  width_digits (f_width sp) wd -> check_shape sp sh = true ->
+  parse_spec (render_spec sp wd) sh = Some sp.
+Proof.
+  intros Hf Hw Hk. unfold parse_spec. rewrite parse_raw_complete; auto.
+  - rewrite Hk. reflexivity.
+  - destruct (f_fill sp); [right; apply Hf; discriminate|left; reflexivity].
+Qed.
+Print Assumptions C20_recogniser_complete.
+
+Example C20_recogniser_complete_example :
+  let sp := Spec (Some 42) (Some AEq) (Some SPlus) true false 12 true (Some TX) in
+  width_digits 12 [49; 50] /\ check_shape sp (Sh 8 true) = true /\
+  render_spec sp [49; 50] = [42; 61; 43; 35; 49; 50; 95; 88].
+Proof.
+  split; [|split; reflexivity]. cbn [width_digits]. split; [lia|]. split; [repeat constructor; lia|reflexivity].
+Qed.
+
+(* --- If/Elif/Else and Switch/Case: the priority chain the simulator runs means what the DSL says --- *)
+(* the (mask, value) pair computed from a Case pattern string matches exactly the values the pattern describes *)
+Theorem C20_pattern_mask_value p test :
+  (snd (pat_mv p) =? Z.land (fst (pat_mv p)) test) = pat_matches p test.
+Proof. exact (pat_mv_spec p test). Qed.
+Print Assumptions C20_pattern_mask_value.
+
+(* first arm with a non-zero condition / first case with a matching pattern (Default always) runs, nothing else *)
+Theorem C20_dsl_lowering_correct sigs env p out :
+  exec sigs env (lower_prog p) out = dexec_prog sigs env p out.
+Proof. exact (proj1 (proj2 (lower_correct sigs env)) p out). Qed.
+Print Assumptions C20_dsl_lowering_correct.
+
+Example C20_dsl_example :
+  pat_mv [49; 45; 48] = (5, 4) /\ pat_matches [49; 45; 48] 6 = true /\ pat_matches [49; 45; 48] 7 = false.
+Proof. vm_compute. repeat split. Qed.
